@@ -25,6 +25,11 @@ class CallMixin:
         if z3.is_app(arr) and arr.decl().kind() == z3.Z3_OP_ITE:
             c, a, b = arr.children()
             return z3.If(c, self.select(a, o), self.select(b, o))
+        if z3.is_app(arr) and arr.decl().kind() == z3.Z3_OP_STORE:
+            # read over write: resolve syntactically when the index is syntactically the stored one
+            a, i, val = arr.children()
+            if i.eq(o):
+                return val
         return z3.Select(arr, o)
 
     def read_attr(self, obj: SV, attr: str, st: St, fr: Frame) -> SV:
@@ -113,6 +118,9 @@ class CallMixin:
             root = self.unique_method_root(attr)
             if root is not None:
                 return self.get_attr(SV(obj.t, "obj:" + root), attr, st, fr, node)
+            proot = self.unique_property_root(attr)
+            if proot is not None:
+                return self.get_attr(SV(obj.t, "obj:" + proot), attr, st, fr, node)
             if attr in ("keys", "values", "items", "get"):
                 self.typing_assumptions += 1          # receiver of a dict-only method is viewed as a dict
                 return SV(None, "pyfunc", py=("method", SV(obj.t, "dict"), attr))
@@ -138,6 +146,22 @@ class CallMixin:
             definers = [c for c, ci in self.repo.classes.items() if "." not in c and attr in ci.methods and "property" not in ci.methods[attr].decorators]
             roots = [c for c in definers if not any(d != c and d in self.repo.classes[c].mro for d in definers)]
             cache[attr] = roots[0] if len(roots) == 1 else None
+        return cache[attr]
+
+    def unique_property_root(self, attr: str):
+        """the single class defining @property `attr`, provided no class in the package also uses `attr` as a plain instance attribute"""
+        cache = self.__dict__.setdefault("_upr", {})
+        if attr not in cache:
+            definers = [c for c, ci in self.repo.classes.items() if "." not in c and attr in ci.methods and "property" in ci.methods[attr].decorators]
+            roots = [c for c in definers if not any(d != c and d in self.repo.classes[c].mro for d in definers)]
+            plain = False
+            for ci in self.repo.classes.values():
+                for n in ast.walk(ci.node):
+                    if isinstance(n, ast.Attribute) and isinstance(n.ctx, ast.Store) and n.attr == attr and isinstance(n.value, ast.Name) and n.value.id == "self":
+                        cj = ci
+                        if not any(attr in self.repo.classes[m].methods for m in cj.mro if m in self.repo.classes):
+                            plain = True
+            cache[attr] = roots[0] if len(roots) == 1 and not plain else None
         return cache[attr]
 
     def instance_assigns(self, cls: str, attr: str) -> bool:
